@@ -5,9 +5,10 @@ import numpy as np
 import check, gens
 
 GEN = ['tables', 'hkl', 't51', 't54']
-LEAN_MODULES = ['XfabVerif.Proofs.C05', 'XfabVerif.Proofs.C05T51', 'XfabVerif.Proofs.C06T54']
+LEAN_MODULES = ['XfabVerif.Proofs.C05', 'XfabVerif.Proofs.C05T51', 'XfabVerif.Proofs.C06T54', 'XfabVerif.Proofs.C05Final', 'XfabVerif.Proofs.C05HexRhomb']
 EXTRA_OBLIGATION_FILES = ['XfabVerif/Gen/T51/G%d.lean' % k for k in range(16)] + ['XfabVerif/Gen/T51/All.lean']
-AUDIT_FILES = ['XfabVerif/Lemmas/T51.lean', 'XfabVerif/Gen/T51/Segs.lean']
+AUDIT_FILES = ['XfabVerif/Lemmas/T51.lean', 'XfabVerif/Gen/T51/Segs.lean', 'XfabVerif/Lemmas/T53.lean', 'XfabVerif/Lemmas/T53Term.lean',
+               'XfabVerif/Lemmas/ConformQ.lean', 'XfabVerif/Lemmas/ExtInv.lean', 'XfabVerif/Lemmas/HexRhomb.lean']
 # definitions the hand-written model mirrors (see harness/pins.py): a source change breaks the tie
 PINS = ['xfab/tools.py:genhkl_base', 'xfab/laue.py:genhkl_base', 'xfab/tools.py:genhkl_all', 'xfab/laue.py:genhkl_all', 'xfab/sg.py:sg']
 LEAN_DRIVER_MODULES = ['XfabVerif.Model.Hkl']
